@@ -33,7 +33,7 @@ func (c16) ID() string       { return "C16" }
 func (c16) New() interface{} { return &C16Script{} }
 func (c16) Info() core.Info {
 	return core.Info{
-		Runs: map[string]int{"quick": 400000, "thorough": 30000000},
+		Runs: map[string]int{"quick": 3000000, "thorough": 300000000},
 		Rule: "Each run is one scripted byte stream (garbage built from a menu of false sync bytes: AFC=00, reserved PID 4..15, runs of 0x47, headers cut by end of stream; then 0..3 packets and a tail) read by packet.Sync through a real bufio.Reader of scripted size or a no-read-ahead PeekScanner, over a SimReader whose every Read outcome (full/short/one byte/zero/data+EOF/transient or hard error) is scripted; plus a complete sweep of false-sync kind x bufio size 16..64 x header position 0..80 under one-byte reads. Non-trivial = at least one reach probe fired (false sync skipped, header straddling a refill, sync byte in the last 3 bytes, not-found, reader fault fired).",
 		Real: []string{"packet.Sync", "packet.IsSynced", "bufio.Reader (stdlib)", "io.ReadFull/io.ReadAll (stdlib)"},
 		Stub: []string{"SimReader (scripted io.Reader)", "exactScanner (harness PeekScanner without read-ahead)", "stream producer"},
